@@ -19,6 +19,10 @@ func (eng *Engine) newExec(fn *ssa.Function, con *Contract) *FuncExec {
 	fx.curDefer = map[*ssa.CallCommon]deferCall{}
 	fx.nonNil = map[int]bool{}
 	fx.loopAutos = map[*ssa.BasicBlock][]autoInv{}
+	fx.anchorHit = map[string]bool{}
+	fx.chanKey = map[int]string{}
+	fx.loopPre = map[*ssa.BasicBlock]*State{}
+	fx.invSeen = map[int]bool{}
 	if con != nil {
 		fx.wrapSigned = con.Opts["wrapsigned"] == "true" || con.Opts["wrapsigned"] == "1"
 		fx.noSafety = con.NoSafety
@@ -81,6 +85,18 @@ func (eng *Engine) VerifyFunction(fn *ssa.Function, con *Contract) (fx *FuncExec
 			fx.rangesFrom(t)
 		}
 	}
+	if con != nil {
+		for _, g := range con.Ghosts {
+			ge := env(st)
+			ex, perr := parseCached(g.Expr)
+			if perr != nil {
+				return fx, perr
+			}
+			st.ghost["g:"+g.Label] = ge.eval(ex)
+		}
+		fx.entry = st.Clone()
+		fx.entries[fn] = fx.entry
+	}
 	nreq := len(fx.facts)
 	// vacuity cover: the preconditions are satisfiable
 	if con != nil && len(con.Requires) > 0 {
@@ -94,6 +110,13 @@ func (eng *Engine) VerifyFunction(fn *ssa.Function, con *Contract) (fx *FuncExec
 		return fx, nil
 	}
 	rets := fx.lastRets
+	if con != nil {
+		for _, a := range con.Anchors {
+			if !fx.anchorHit[a.Anchor+"/"+a.Label] {
+				fx.addObl("shape", "anchor:"+a.Label, "anchor "+a.Anchor+" does not match any call in the function", er, ts.False())
+			}
+		}
+	}
 	if con != nil {
 		pe := env(exit)
 		pe.reach = er
@@ -426,45 +449,98 @@ func (fx *FuncExec) leafKeys(key string, t types.Type, ref *Term) (fields []stru
 // frameObligations: every heap array the body wrote agrees with its entry value
 // outside the locations named by `modifies` (objects allocated by the body are
 // exempt).
+// frameSpec is the function's `modifies` clause evaluated in the entry state.
+type frameSpec struct {
+	allowed map[string][]*Term // field array key -> refs that may change
+	wins    map[string][]window
+	exempt  map[string]bool
+	err     error
+}
+
+func (fx *FuncExec) frameSpecFor(fn *ssa.Function, con *Contract) *frameSpec {
+	if fx.frames == nil {
+		fx.frames = map[*ssa.Function]*frameSpec{}
+	}
+	if fs, ok := fx.frames[fn]; ok {
+		return fs
+	}
+	ts := fx.ts
+	fs := &frameSpec{allowed: map[string][]*Term{}, wins: map[string][]window{}, exempt: map[string]bool{}}
+	fx.frames[fn] = fs
+	env := &cenv{fx: fx, fn: fn, st: fx.entry, old: fx.entry, con: con, binds: map[string]Value{}, params: fx.params, reach: ts.True()}
+	locs, err := fx.evalModifies(con, env)
+	if err != nil {
+		fs.err = err
+		return fs
+	}
+	for _, l := range locs {
+		if strings.HasPrefix(l.key, "family:") {
+			f, _ := fx.leafKeys(ptrKey(l.typ), l.typ, ts.Int(0))
+			for _, k := range f {
+				fs.exempt[k.key] = true
+			}
+			continue
+		}
+		if strings.HasPrefix(l.key, "anyelems:") {
+			fs.exempt[strings.TrimPrefix(l.key, "anyelems:")] = true
+			continue
+		}
+		if l.elems {
+			fs.wins[l.key] = append(fs.wins[l.key], window{l.ref, l.off, l.n})
+			continue
+		}
+		f, e := fx.leafKeys(l.key, l.typ, l.ref)
+		for _, k := range f {
+			fs.allowed[k.key] = append(fs.allowed[k.key], l.ref)
+		}
+		for _, k := range e {
+			fs.wins[k.heap] = append(fs.wins[k.heap], window{k.id, nil, nil})
+		}
+	}
+	return fs
+}
+
+// frameFormula says that heap array k, with current value cur, agrees with the function's entry value outside
+// the locations named by `modifies`, for every object / backing array that existed at entry.
+func (fx *FuncExec) frameFormula(fs *frameSpec, k string, cur *Term) *Term {
+	ts := fx.ts
+	srt := fx.eng.heapSorts[k]
+	h0 := ts.Var("H0!"+k, srt)
+	alloc0 := fx.heapGet(fx.entry, allocKey, SInt)
+	r := ts.Bound("r", SInt)
+	conds := []*Term{ts.Lt(r, alloc0)}
+	if srt == SArr2 {
+		// arrays embedded in objects allocated by the body are new as well
+		conds = append(conds, ts.Lt(ts.Neg(ts.Mul(alloc0, ts.Int(1024))), ts.Add(r, ts.Int(1))))
+		j := ts.Bound("j", SInt)
+		for _, w := range fs.wins[k] {
+			if w.off == nil {
+				conds = append(conds, ts.Ne(r, w.arr))
+			} else {
+				conds = append(conds, ts.Not(ts.And(ts.Eq(r, w.arr), ts.Le(w.off, j), ts.Lt(j, ts.Add(w.off, w.n)))))
+			}
+		}
+		return ts.Forall([]*Term{r, j}, ts.Implies(ts.And(conds...), ts.Eq(ts.Select(ts.Select(cur, r), j), ts.Select(ts.Select(h0, r), j))),
+			ts.Select(ts.Select(cur, r), j))
+	}
+	for _, a := range fs.allowed[k] {
+		conds = append(conds, ts.Ne(r, a))
+	}
+	return ts.Forall([]*Term{r}, ts.Implies(ts.And(conds...), ts.Eq(ts.Select(cur, r), ts.Select(h0, r))), ts.Select(cur, r))
+}
+
+// frameObligations: every heap array the body wrote agrees with its entry value outside the locations named by
+// `modifies` (objects allocated by the body are exempt).
 func (fx *FuncExec) frameObligations(fn *ssa.Function, con *Contract, reach *Term, exit *State) {
 	ts := fx.ts
 	if con.Opts["noframe"] != "" {
 		return
 	}
-	env := &cenv{fx: fx, fn: fn, st: fx.entry, old: fx.entry, con: con, binds: map[string]Value{}, params: fx.params, reach: ts.True()}
-	locs, err := fx.evalModifies(con, env)
-	if err != nil {
-		fx.addObl("shape", "modifies", err.Error(), reach, ts.False())
+	fs := fx.frameSpecFor(fn, con)
+	if fs.err != nil {
+		fx.addObl("shape", "modifies", fs.err.Error(), reach, ts.False())
 		return
 	}
-	allowed := map[string][]*Term{} // field array key -> refs that may change
-	wins := map[string][]window{}   // element heap key -> writable windows
-	exempt := map[string]bool{}
-	for _, l := range locs {
-		if strings.HasPrefix(l.key, "family:") {
-			f, _ := fx.leafKeys(ptrKey(l.typ), l.typ, ts.Int(0))
-			for _, k := range f {
-				exempt[k.key] = true
-			}
-			continue
-		}
-		if strings.HasPrefix(l.key, "anyelems:") {
-			exempt[strings.TrimPrefix(l.key, "anyelems:")] = true
-			continue
-		}
-		if l.elems {
-			wins[l.key] = append(wins[l.key], window{l.ref, l.off, l.n})
-			continue
-		}
-		f, e := fx.leafKeys(l.key, l.typ, l.ref)
-		for _, k := range f {
-			allowed[k.key] = append(allowed[k.key], l.ref)
-		}
-		for _, k := range e {
-			wins[k.heap] = append(wins[k.heap], window{k.id, nil, nil})
-		}
-	}
-	alloc0 := fx.heapGet(fx.entry, allocKey, SInt)
 	keys := make([]string, 0, len(exit.heap))
 	for k := range exit.heap {
 		keys = append(keys, k)
@@ -477,44 +553,31 @@ func (fx *FuncExec) frameObligations(fn *ssa.Function, con *Contract, reach *Ter
 		cur := exit.heap[k]
 		srt := fx.eng.heapSorts[k]
 		h0 := ts.Var("H0!"+k, srt)
-		if cur == h0 || exempt[k] {
+		if cur == h0 || fs.exempt[k] {
 			continue
 		}
-		r := ts.Bound("r", SInt)
-		conds := []*Term{ts.Lt(r, alloc0)}
-		if srt == SArr2 {
-			// arrays embedded in objects allocated by the body are new as well
-			conds = append(conds, ts.Lt(ts.Neg(ts.Mul(alloc0, ts.Int(1024))), ts.Add(r, ts.Int(1))))
-			j := ts.Bound("j", SInt)
-			// element j of existing array r is unchanged unless (r, j) lies in a window
-			for _, w := range wins[k] {
-				if w.off == nil {
-					conds = append(conds, ts.Ne(r, w.arr))
-				} else {
-					conds = append(conds, ts.Not(ts.And(ts.Eq(r, w.arr), ts.Le(w.off, j), ts.Lt(j, ts.Add(w.off, w.n)))))
-				}
-			}
-			goal := ts.Forall([]*Term{r, j}, ts.Implies(ts.And(conds...), ts.Eq(ts.Select(ts.Select(cur, r), j), ts.Select(ts.Select(h0, r), j))))
-			fx.addObl("frame", k, "only the locations named by modifies may change", reach, goal)
-			continue
-		}
-		for _, a := range allowed[k] {
-			conds = append(conds, ts.Ne(r, a))
-		}
-		goal := ts.Forall([]*Term{r}, ts.Implies(ts.And(conds...), ts.Eq(ts.Select(cur, r), ts.Select(h0, r))))
-		fx.addObl("frame", k, "only the locations named by modifies may change", reach, goal)
+		fx.addObl("frame", k, "only the locations named by modifies may change", reach, fx.frameFormula(fs, k, cur))
 	}
 }
 
 // applyContract uses callee's contract at a call site.
 func (fx *FuncExec) applyContract(st *State, reach *Term, callee *ssa.Function, con *Contract, args []Value, resType types.Type, src string) (*Term, Value) {
-	ts := fx.ts
 	params := map[string]Value{}
 	for i, p := range callee.Params {
 		if i < len(args) {
 			params[p.Name()] = args[i]
 		}
 	}
+	return fx.applyContractCore(st, reach, callee, callee.Signature, con, params, resType, src)
+}
+
+// applyContractSig applies a stub contract for an interface method (no ssa.Function).
+func (fx *FuncExec) applyContractSig(st *State, reach *Term, con *Contract, sig *types.Signature, params map[string]Value, resType types.Type, src string) (*Term, Value) {
+	return fx.applyContractCore(st, reach, nil, sig, con, params, resType, src)
+}
+
+func (fx *FuncExec) applyContractCore(st *State, reach *Term, callee *ssa.Function, sig *types.Signature, con *Contract, params map[string]Value, resType types.Type, src string) (*Term, Value) {
+	ts := fx.ts
 	pre := st.Clone()
 	mk := func(s *State) *cenv {
 		return &cenv{fx: fx, fn: callee, st: s, old: pre, con: con, binds: map[string]Value{}, params: params, reach: reach}
@@ -584,12 +647,36 @@ func (fx *FuncExec) applyContract(st *State, reach *Term, callee *ssa.Function, 
 	// results
 	var rv Value
 	var results []Value
-	sigRes := callee.Signature.Results()
+	sigRes := sig.Results()
 	for i := 0; i < sigRes.Len(); i++ {
-		results = append(results, fx.freshValueR(fmt.Sprintf("ret.%s.%d", callee.Name(), i), sigRes.At(i).Type(), st, reach))
+		results = append(results, fx.freshValueR(fmt.Sprintf("ret.%s.%d", sanitize(con.Func), i), sigRes.At(i).Type(), st, reach))
 	}
 	post := mk(st)
-	fx.bindResults(post, callee, results)
+	// the callee's ghost variables are unknown to the caller
+	for _, g := range con.Ghosts {
+		func() {
+			defer func() { _ = recover() }()
+			ex, perr := parseCached(g.Expr)
+			if perr != nil {
+				return
+			}
+			switch mk(pre).eval(ex).(type) {
+			case VBool:
+				post.binds[g.Label] = VBool{ts.Fresh("ghost."+g.Label, SBool)}
+			default:
+				post.binds[g.Label] = VInt{ts.Fresh("ghost."+g.Label, SInt)}
+			}
+		}()
+	}
+	for i, v := range results {
+		post.binds[fmt.Sprintf("r%d", i)] = v
+		if i < sigRes.Len() && sigRes.At(i).Name() != "" && sigRes.At(i).Name() != "_" {
+			post.binds[sigRes.At(i).Name()] = v
+		}
+	}
+	if len(results) == 1 {
+		post.binds["result"] = results[0]
+	}
 	for _, c := range con.Ensures {
 		t, err := fx.evalClause(c, post)
 		if err != nil {
@@ -637,6 +724,106 @@ func (fx *FuncExec) intrinsic(st *State, reach *Term, callee *ssa.Function, name
 		return reach, fx.pooledObject(st, reach, pt.typ), true
 	case "(*sync.Pool).Put":
 		return reach, VTuple{nil}, true
+	case "(*sync.Mutex).Lock", "(*sync.RWMutex).Lock", "(*sync.RWMutex).RLock":
+		// another goroutine may have changed the fields this lock guards: forget them
+		if p, ok := args[0].(VPtr); ok {
+			for _, k := range fx.eng.cs.Guarded[p.key] {
+				if srt, ok := fx.eng.heapSorts[k]; ok {
+					fx.heapSet(st, k, fx.ts.Fresh("locked."+k, srt))
+				} else {
+					fx.heapSet(st, k, fx.ts.Fresh("locked."+k, SArr))
+				}
+			}
+			if len(fx.eng.cs.Guarded[p.key]) > 0 {
+				fx.note("taking " + p.key + " forgets the fields it guards (interference by other goroutines)")
+			}
+		}
+		return reach, VTuple{nil}, true
+	case "(*sync.Mutex).Unlock", "(*sync.RWMutex).Unlock", "(*sync.RWMutex).RUnlock":
+		return reach, VTuple{nil}, true
+	}
+	switch name {
+	case "errors.As":
+		// errors.As(err, &target) for target of this package's Error type: the package never wraps errors, so the
+		// chain is err itself (trusted model of the standard library function)
+		if len(args) == 2 {
+			tp, ok := args[1].(VPtr)
+			if tv, isI := args[1].(VIface); isI && tv.tag.isInt() {
+				// the target arrives boxed in an `any`
+				if pt, ok2 := fx.eng.typeByID[int(tv.tag.ival.Int64())].(*types.Pointer); ok2 {
+					tp, ok = VPtr{ptrKey(pt.Elem()), tv.val, pt.Elem()}, true
+				}
+			}
+			if ok {
+				if n, ok := tp.typ.(*types.Named); ok && n.Obj().Name() == "Error" && fx.eng.inPackageType(n) {
+					iv, ok := args[0].(VIface)
+					if ok {
+						ts := fx.ts
+						is := ts.Eq(iv.tag, ts.Int(int64(fx.eng.typeID(tp.typ))))
+						val := fx.unbox(st, reach, iv, tp.typ)
+						cur := fx.load(st, reach, tp, tp.typ)
+						fx.store(st, reach, tp, fx.iteValue(is, val, cur, tp.typ), tp.typ)
+						return reach, VBool{is}, true
+					}
+				}
+			}
+		}
+	case "errors.Is":
+		if len(args) == 2 {
+			a, ok1 := args[0].(VIface)
+			b, ok2 := args[1].(VIface)
+			if ok1 && ok2 {
+				ts := fx.ts
+				eq := fx.ifaceEq(st, reach, a, b)
+				known := ts.Or(ts.Eq(a.tag, ts.Int(int64(fx.eng.typeID(fx.eng.namedType("Error"))))),
+					ts.Eq(a.tag, ts.Int(int64(fx.eng.errorStringTypeID()))), ts.Eq(a.tag, ts.Int(0)))
+				// errors of this package are never wrapped and their Is methods only match error codes
+				codeTarget := ts.Eq(b.tag, ts.Int(int64(fx.eng.typeID(fx.eng.namedType("ErrorCode")))))
+				other := ts.And(ts.Or(ts.Not(known), codeTarget), ts.Ne(a.tag, ts.Int(0)), ts.Fresh("errors.Is", SBool))
+				return reach, VBool{ts.Or(eq, other)}, true
+			}
+		}
+	}
+	// sync/atomic on plain integer fields: sequential semantics (interference by other goroutines is not modelled)
+	if strings.HasPrefix(name, "atomic.") && len(args) >= 1 {
+		op := strings.TrimPrefix(name, "atomic.")
+		var et types.Type
+		if p, ok := callee.Signature.Params().At(0).Type().Underlying().(*types.Pointer); ok {
+			et = p.Elem()
+		}
+		it, isInt := IntTy{}, false
+		if et != nil {
+			it, isInt = intTyOf(et)
+		}
+		if isInt {
+			fx.note("sync/atomic operations are modelled as plain sequential reads and writes")
+			switch {
+			case strings.HasPrefix(op, "Load"):
+				reach = fx.nilCheck(reach, args[0], src)
+				return reach, fx.load(st, reach, args[0], et), true
+			case strings.HasPrefix(op, "Store") && len(args) == 2:
+				reach = fx.nilCheck(reach, args[0], src)
+				fx.store(st, reach, args[0], args[1], et)
+				return reach, VTuple{nil}, true
+			case strings.HasPrefix(op, "Add") && len(args) == 2:
+				reach = fx.nilCheck(reach, args[0], src)
+				cur := fx.load(st, reach, args[0], et).(VInt)
+				nv := fx.ts.Wrap(it, fx.ts.Add(cur.t, args[1].(VInt).t))
+				fx.store(st, reach, args[0], VInt{nv}, et)
+				return reach, VInt{nv}, true
+			case strings.HasPrefix(op, "CompareAndSwap") && len(args) == 3:
+				reach = fx.nilCheck(reach, args[0], src)
+				cur := fx.load(st, reach, args[0], et).(VInt)
+				eq := fx.ts.Eq(cur.t, args[1].(VInt).t)
+				fx.store(st, reach, args[0], VInt{fx.ts.Ite(eq, args[2].(VInt).t, cur.t)}, et)
+				return reach, VBool{eq}, true
+			case strings.HasPrefix(op, "Swap") && len(args) == 2:
+				reach = fx.nilCheck(reach, args[0], src)
+				cur := fx.load(st, reach, args[0], et)
+				fx.store(st, reach, args[0], args[1], et)
+				return reach, cur, true
+			}
+		}
 	}
 	return reach, nil, false
 }
@@ -676,6 +863,18 @@ func (eng *Engine) parseTypeName(s string) types.Type {
 		t = b
 	} else if o := eng.mainPkg.Pkg.Scope().Lookup(s); o != nil {
 		t = o.Type()
+	} else if pk, name, ok := strings.Cut(s, "."); ok {
+		// a type of an imported package, e.g. fasthttp.RequestCtx
+		for _, imp := range eng.mainPkg.Pkg.Imports() {
+			if imp.Name() == pk {
+				if o := imp.Scope().Lookup(name); o != nil {
+					t = o.Type()
+				}
+			}
+		}
+		if t == nil {
+			return nil
+		}
 	} else {
 		return nil
 	}
@@ -794,6 +993,14 @@ func (fx *FuncExec) rangesFrom(t *Term) {
 // specPrelude is the text of the spec files whose functions this function's VCs use.
 func (fx *FuncExec) specPrelude() string {
 	var sb strings.Builder
+	var tn []string
+	for t := range fx.tables {
+		tn = append(tn, t)
+	}
+	sort.Strings(tn)
+	for _, t := range tn {
+		sb.WriteString(fx.eng.tablePrelude(t))
+	}
 	for _, f := range fx.eng.specOrder {
 		if fx.specUsed[f] {
 			sb.WriteString(fx.eng.specFiles[f])
@@ -804,4 +1011,19 @@ func (fx *FuncExec) specPrelude() string {
 
 func normFuncName(s string) string {
 	return strings.NewReplacer("(", "", ")", "", "*", "", " ", "").Replace(s)
+}
+
+// heapLocalByName finds a local variable of fn that is heap allocated (captured by a closure or address-taken).
+func (fx *FuncExec) heapLocalByName(fn *ssa.Function, name string) *ssa.Alloc {
+	var found *ssa.Alloc
+	for _, b := range fn.Blocks {
+		for _, in := range b.Instrs {
+			if a, ok := in.(*ssa.Alloc); ok && a.Comment == name && !fx.isCell(a) {
+				if found == nil || a.Pos() < found.Pos() {
+					found = a
+				}
+			}
+		}
+	}
+	return found
 }
